@@ -406,8 +406,12 @@ def dict_keys_facts(m):
     k = z3.Int('dk_k')
     k2 = z3.Int('dk_k2')
     o = z3.Const('dk_o', Obj)
+    alias = fresh('dictmap', ObjMap)      # keeps ite terms out of the quantifier patterns
+    eq = alias == m
+    m = alias
     ks = dict_keys(m)
     return [
+        eq,
         z3.ForAll([k], z3.Implies(z3.And(0 <= k, k < Length(ks)), m[ks[k]] != ABSENT), patterns=[ks[k]]),
         z3.ForAll([k, k2], z3.Implies(z3.And(0 <= k, k < k2, k2 < Length(ks)), ks[k] != ks[k2]),
                   patterns=[z3.MultiPattern(ks[k], ks[k2])]),
